@@ -659,7 +659,9 @@ func c18(p *core.Program, r *core.Report) {
 		rec := 0
 		for _, fn := range pkgFuncs(p, wktRel) {
 			root := topLevel(fn)
-			if root.Signature.Recv() == nil || !strings.Contains(root.Signature.Recv().Type().String(), "Encoder") {
+			// the encoder, or a per-call writer value the encoder's methods were moved onto: any method of the package
+			// declared in the encoder's file
+			if root.Signature.Recv() == nil || !inFile(p, root, wktRel, "encode.go") {
 				continue
 			}
 			for _, c := range eng.Calls(fn) {
@@ -671,14 +673,14 @@ func c18(p *core.Program, r *core.Report) {
 					fresh = append(fresh, short(fn)+" -> "+cal.Name()+" at "+p.Pos(c.Pos()))
 				}
 				// a member handed to a method of the same encoder (a method with a geom.T parameter)
-				if cal.Signature.Recv() != nil && strings.Contains(cal.Signature.Recv().Type().String(), "Encoder") && len(c.Common().Args) > 0 && c.Common().Args[0] == ssa.Value(root.Params[0]) && fn != cal || cal == root {
+				if cal.Signature.Recv() != nil && types.Identical(cal.Signature.Recv().Type(), root.Signature.Recv().Type()) && len(c.Common().Args) > 0 && unspill(c.Common().Args[0]) == ssa.Value(root.Params[0]) && fn != cal || cal == root {
 					takesGeom := false
 					for _, prm := range cal.Params {
 						if n, ok := prm.Type().(*types.Named); ok && n.Obj().Name() == "T" {
 							takesGeom = true
 						}
 					}
-					if takesGeom && len(c.Common().Args) > 0 && c.Common().Args[0] == ssa.Value(root.Params[0]) {
+					if takesGeom && len(c.Common().Args) > 0 && unspill(c.Common().Args[0]) == ssa.Value(root.Params[0]) {
 						rec++
 					}
 				}
